@@ -11,6 +11,7 @@ import (
 	"sync"
 
 	"github.com/formancehq/go-libs/v5/pkg/authn/jwt"
+	logging "github.com/formancehq/go-libs/v5/pkg/observe/log"
 
 	"github.com/formancehq/ledger/internal/api"
 	"github.com/formancehq/ledger/verifharness/pgmodel"
@@ -36,6 +37,8 @@ func (r *Resp) JSON() (any, error) {
 }
 
 var routerOnce sync.Mutex
+
+var quietLogger = logging.NewDefaultLogger(io.Discard, false, false, false)
 
 // Router returns the repository's real HTTP router over this stack's system controller.
 func (s *Stack) Router() http.Handler {
@@ -70,6 +73,7 @@ func (s *Stack) Do(ctx context.Context, worker, method, path string, body any, h
 		ctx = context.Background()
 	}
 	ctx = pgmodel.WithWorker(ctx, worker)
+	ctx = logging.ContextWithLogger(ctx, quietLogger)
 	req := httptest.NewRequest(method, path, rd).WithContext(ctx)
 	if rd != nil {
 		req.Header.Set("Content-Type", "application/json")
